@@ -91,6 +91,8 @@ def main(argv=None):
     bdir = os.path.join(ROOT, "build", pid + ("-alt%d" % os.getpid() if ALT else ""))
     shutil.rmtree(bdir, ignore_errors=True)
     os.makedirs(bdir)
+    if hasattr(hmod, "prepare"):
+        hmod.prepare(bdir, ENV)         # e.g. C18: fresh-process baseline, computed once per run
     jobs = []
     for c in conds:
         for sid, sfix in c.shards():
